@@ -5,11 +5,13 @@
      lyd_validate()                    impl_validate: lyd_validate_new on the top level, then per top-level node the DFS of
                                        lyd_validate_subtree (lyd_validate_new on the children of every inner node), then
                                        lyd_validate_final_r
+     (state of the code: after 06232b2 - the public lyd_insert_* flag the inserted node LYD_NEW -, ba1198e, 357db45)
      lyd_validate_new()                vlevel: lyd_validate_choice_r / lyd_validate_cases (new and old case data, the old
                                        case is auto-deleted), then the node loop: only nodes flagged LYD_NEW or LYD_DEFAULT
                                        are looked at; lyd_validate_autodel_leaflist_dflt / _cont_leaf_dflt,
                                        lyd_validate_duplicates ONLY FOR NODES FLAGGED LYD_NEW (flag cleared afterwards),
-                                       lyd_validate_autodel_case_dflt
+                                       lyd_validate_autodel_case_dflt (walks up through default cases of nested
+                                       choices - since 357db45)
      lyd_validate_duplicates()         dup_of: the children_ht path (lyht_find_next_with_collision_cb with
                                        lyd_hash_table_val_equal) and the linear path answer the same question and are one
                                        function here (their agreement is checked by the C04 / ht slices and by the
@@ -21,9 +23,9 @@
                                        creates (absent ones outside choices, in the case that has data, in the default case
                                        of a choice without data) are not materialised: they are visited virtually at their
                                        schema position (vf).
-     lyd_validate_mandatory / _minmax / _unique (+ lyd_val_uniq_find_leaf, lyd_val_uniq_list_equal: the DEFAULT OF THE
-                                       SCHEMA LEAF IS USED WHENEVER THE LEAF IS NOT FOUND - also when the default is not in
-                                       use according to RFC 7950 7.6.1; see C02_unique_default_refuted)
+     lyd_validate_mandatory / _minmax / _unique (+ lyd_val_uniq_find_leaf, lyd_val_uniq_list_equal,
+                                       lyd_val_uniq_dflt_in_use: the default of a unique leaf without instance is used
+                                       only when it is in use, RFC 7950 7.6.1 - since ba1198e)
    and the checks the parsers make before validation (impl_parse_validate: value of the type - parameter ty -,
    lyd_parse_check_keys).
    Not modelled: when / must / leafref and instance-identifier resolution (lyd_validate_unres), LYD_VALIDATE_* options
@@ -206,21 +208,28 @@ Section Impl.
   Definition dup_of (others : vforest) (n : vnode) : bool :=
     negb (dup_inst (vs_info vs) (vn_sid n)) && existsb (same_vinst n) others.
 
-  (* innermost case around schema node s at this level: (is the default case, its sids) *)
-  Fixpoint case_of (s : sid) (cur : option (bool * list sid)) (t : stree) : option (option (bool * list sid)) :=
+  (* the cases around schema node s at this level, innermost first: (is the default case of its choice, its sids) *)
+  Fixpoint case_of (s : sid) (cur : list (bool * list sid)) (t : stree) : option (list (bool * list sid)) :=
     match t with
     | TNode s' _ => if s' =? s then Some cur else None
     | TChoice _ _ cs => first_some (case_of s cur) cs
-    | TCase _ d ch => first_some (case_of s (Some (d, st_sids t))) ch
+    | TCase _ d ch => first_some (case_of s ((d, st_sids t) :: cur)) ch
     end.
 
-  (* lyd_validate_autodel_case_dflt: a default node directly in a case that is not the default case and has no explicit
-     node among the siblings is deleted *)
+  (* lyd_validate_autodel_case_dflt: a default node directly in a case is deleted when, going up through the cases
+     that are the default case of their (nested) choice, a case is reached that is not a default case and has no
+     explicit node among the siblings; it is kept when the chain of default cases ends outside of a case *)
+  Fixpoint stale_chain (all : vforest) (chain : list (bool * list sid)) : bool :=
+    match chain with
+    | [] => false
+    | (d, sids) :: rest =>
+        if d then stale_chain all rest
+        else negb (existsb (fun x => existsb (N.eqb (vn_sid x)) sids && negb (vn_dflt x)) all)
+    end.
   Definition stale_case_dflt (l : list stree) (all : vforest) (n : vnode) : bool :=
-    match first_some (case_of (vn_sid n) None) l with
-    | Some (Some (d, sids)) =>
-        negb d && negb (existsb (fun x => existsb (N.eqb (vn_sid x)) sids && negb (vn_dflt x)) all)
-    | _ => false
+    match first_some (case_of (vn_sid n) []) l with
+    | Some chain => stale_chain all chain
+    | None => false
     end.
 
   (* the loop over the siblings: done = already passed (reversed), todo = from the current node on *)
@@ -322,18 +331,51 @@ Section Impl.
         end
     end.
 
-  (* value used for one leaf of a unique statement: the instance's, else the schema default (no look at whether the
-     default is in use), else none *)
-  Definition uq_val (e : dnode) (p : list sid) : option bytes :=
-    match uq_find (d_ch e) p with
-    | Some n => Some (d_val n)
-    | None => match si_dflts (info vs (last p 0)) with d :: _ => Some d | [] => None end
+  (* the cases schema node s of level l is in exist in context f: every one has data or is the default case of a choice
+     without data (the loop over scase in lyd_val_uniq_dflt_in_use; the conjunction does not depend on the direction) *)
+  Fixpoint cases_in (f : forest) (ok chd : bool) (s : sid) (t : stree) : option bool :=
+    match t with
+    | TNode s' _ => if s' =? s then Some ok else None
+    | TChoice _ _ cs => first_some (cases_in f ok (existsb (sub_has_data f) cs) s) cs
+    | TCase _ d ch => first_some (cases_in f (ok && (sub_has_data f t || (d && negb chd))) false s) ch
+    end.
+  Definition cases_exist (l : list stree) (f : forest) (s : sid) : bool :=
+    match first_some (cases_in f true false s) l with Some b => b | None => false end.
+
+  (* lyd_val_uniq_dflt_in_use: siblings = f (none once a node of the path does not exist) *)
+  Fixpoint uq_dflt_in_use (l : list stree) (f : forest) (p : list sid) {struct p} : bool :=
+    match p with
+    | [] => true
+    | s :: p' =>
+        cases_exist l f s &&
+        match find_sid f s with
+        | Some c => uq_dflt_in_use (st_children l s) (d_ch c) p'
+        | None =>
+            match p' with
+            | [] => true
+            | _ => match kind vs s with
+                   | KCont true => false                                   (* non-existing presence container *)
+                   | _ => uq_dflt_in_use (st_children l s) [] p'
+                   end
+            end
+        end
     end.
 
-  Definition uq_equal (u : list (list sid)) (a b : dnode) : bool :=
+  (* value used for one leaf of a unique statement in list entry e (ls = schema children of the list): the
+     instance's, else the schema default if it is in use, else none *)
+  Definition uq_val (ls : list stree) (e : dnode) (p : list sid) : option bytes :=
+    match uq_find (d_ch e) p with
+    | Some n => Some (d_val n)
+    | None => match si_dflts (info vs (last p 0)) with
+              | d :: _ => if uq_dflt_in_use ls (d_ch e) p then Some d else None
+              | [] => None
+              end
+    end.
+
+  Definition uq_equal (ls : list stree) (u : list (list sid)) (a b : dnode) : bool :=
     match u with
     | [] => false
-    | _ => forallb (fun p => match uq_val a p, uq_val b p with
+    | _ => forallb (fun p => match uq_val ls a p, uq_val ls b p with
                              | Some x, Some y => beq_bytes x y
                              | _, _ => false
                              end) u
@@ -342,22 +384,22 @@ Section Impl.
   (* lyd_validate_unique: two instances are compared directly, more through one hash table per unique statement into
      which the instances with a complete value tuple are inserted in order; either way the answer is whether two
      instances agree on some statement *)
-  Definition uniq_check (f : forest) (s : sid) : vres :=
+  Definition uniq_check (ls : list stree) (f : forest) (s : sid) : vres :=
     match uniques_of vs s with
     | [] => VOk
-    | us => chk (pairwise (fun a b => negb (existsb (fun u => uq_equal u a b) us)) (insts f s)) ENoUniq
+    | us => chk (pairwise (fun a b => negb (existsb (fun u => uq_equal ls u a b) us)) (insts f s)) ENoUniq
     end.
 
   (* the second loop of lyd_validate_siblings_schema_r, one schema node *)
   Definition sr_node (f : forest) (t : stree) : vres :=
     match t with
-    | TNode s _ =>
+    | TNode s ch =>
         match kind vs s with
         | KList =>
             vand (match si_min (info vs s), si_max (info vs s) with
                   | 0, None => VOk
                   | _, _ => minmax f s
-                  end) (uniq_check f s)
+                  end) (uniq_check ch f s)
         | KLeafList =>
             match si_min (info vs s), si_max (info vs s) with
             | 0, None => VOk
